@@ -1,4 +1,5 @@
 //! Shared machinery for the wac model-checking harness (see /verif/DESIGN.md).
+pub mod canon_wac;
 pub mod e2;
 pub mod libs;
 pub mod run;
